@@ -19,7 +19,13 @@
     carried over.
 
   Method: with the concrete instance every callee has a closed form (`if w.broken then (w, ew) else (w.push …, nil)`), so
-  has every model function; the theorems split on `w.broken`, on the presence of the GDPR token and on the two sizes.
+  has every model function; the theorems split on `w.broken`, on the presence of the GDPR token and on the two sizes —
+  semantic conditions, before anything is simplified. The generated `writeKVInfo` / `Encode` are then WALKED from the
+  head (`tth_step`, `enc_step`, `brk_step`): the shape of the generated code is never written down (no generated loop
+  function, parameter list or statement order appears in a lemma statement; the three loops are handled by lemmas about
+  ANY function with the loop's round, `strLoop_gen`, `intLoop_gen`, `padLoop_gen`), so a behaviour-preserving
+  refactoring of the Go source (hoisted locals, commuted operands, inverted guards, un-nested returns, other loop
+  forms) leaves the proofs standing.
 -/
 import Verif.Lemmas.Funcs.TTH2
 import Verif.Lemmas.Funcs.Write
@@ -188,6 +194,12 @@ theorem vputU32_whole (b : Bytes) (h : b.length = 4) (x : Int) : vputU32 b 0 x =
   match b, h with
   | [a, c, d, f], _ => simp [vputU32, vlen, len, putAt, be32_toU]
 
+theorem vset_fresh1 (w : W) (x : Int) : vset (w.fresh 1) 0 0 x = .ok [byteOf x] := vset_whole1 _ (by simp) x
+theorem vputU16_fresh2 (w : W) (x : Int) : vputU16 (w.fresh 2) 0 x = .ok (be16 (ofInt 16 x)) :=
+  vputU16_whole _ (by simp) x
+theorem vputU32_fresh4 (w : W) (x : Int) : vputU32 (w.fresh 4) 0 x = .ok (be32 (ofInt 32 x)) :=
+  vputU32_whole _ (by simp) x
+
 section writers
 variable (ew : GoErr) (hew : ew ≠ GoErr.nil)
 include hew
@@ -197,64 +209,58 @@ theorem tth_WriteByte_cf (w : W) (v : Int) :
       if w.broken then .ok (w, ew) else .ok (w.push [byteOf v], GoErr.nil) := by
   unfold Funcs.tth_WriteByte
   cases hb : w.broken
-  · rw [twI_malloc_ok ew w 1 hb (by omega)]
-    simp [vset_whole1, twI_commit_top]
-  · rw [twI_malloc_broken ew w 1 hb]
-    simp [hew, twI_commit_none]
+  · bsimp [twI_malloc_ok ew w 1 hb (by omega), vset_fresh1, Int.reduceToNat, twI_commit_top]
+  · bsimp [twI_malloc_broken ew w 1 hb, hew, twI_commit_none]
 
 theorem tth_WriteUint16_cf (w : W) (v : Int) :
     Funcs.tth_WriteUint16 (twI ew) v w =
       if w.broken then .ok (w, ew) else .ok (w.push (be16 (ofInt 16 v)), GoErr.nil) := by
   unfold Funcs.tth_WriteUint16
   cases hb : w.broken
-  · rw [twI_malloc_ok ew w 2 hb (by omega)]
-    simp [vputU16_whole, twI_commit_top]
-  · rw [twI_malloc_broken ew w 2 hb]
-    simp [hew, twI_commit_none]
+  · bsimp [twI_malloc_ok ew w 2 hb (by omega), vputU16_fresh2, Int.reduceToNat, twI_commit_top]
+  · bsimp [twI_malloc_broken ew w 2 hb, hew, twI_commit_none]
 
 theorem tth_WriteUint32_cf (w : W) (v : Int) :
     Funcs.tth_WriteUint32 (twI ew) v w =
       if w.broken then .ok (w, ew) else .ok (w.push (be32 (ofInt 32 v)), GoErr.nil) := by
   unfold Funcs.tth_WriteUint32
   cases hb : w.broken
-  · rw [twI_malloc_ok ew w 4 hb (by omega)]
-    simp [vputU32_whole, twI_commit_top]
-  · rw [twI_malloc_broken ew w 4 hb]
-    simp [hew, twI_commit_none]
+  · bsimp [twI_malloc_ok ew w 4 hb (by omega), vputU32_fresh4, Int.reduceToNat, twI_commit_top]
+  · bsimp [twI_malloc_broken ew w 4 hb, hew, twI_commit_none]
 
 theorem tth_WriteString2BLen_cf (w : W) (s : Bytes) (hs : s.length < 2 ^ 62) :
     Funcs.tth_WriteString2BLen (twI ew) s w =
       if w.broken then .ok (w, 0, ew)
       else .ok ((w.push (be16 (s.length % 65536))).push s, ((s.length + 2 : Nat) : Int), GoErr.nil) := by
-  simp only [Funcs.tth_WriteString2BLen, tth_WriteUint16_cf ew hew]
+  have hl : len s = (s.length : Int) := rfl
+  unfold Funcs.tth_WriteString2BLen
   cases hb : w.broken
-  · have e1 : be16 (ofInt 16 (wrap .u16 (len s))) = be16 (s.length % 65536) := by
-      rw [ofInt_wrap 16 .u16 _ (by decide)]; unfold len; rw [be16_ofInt_nat]
+  · have e1 : be16 (ofInt 16 (wrap .u16 (s.length : Int))) = be16 (s.length % 65536) := by
+      rw [ofInt_wrap 16 .u16 _ (by decide), be16_ofInt_nat]
       unfold be16; congr 1
       · apply ofNat_congr; omega
       congr 1
       · apply ofNat_congr; omega
     have hb' : (w.push (be16 (s.length % 65536))).broken = false := by simp [hb]
-    simp only [Bool.false_eq_true, if_false, Out.bind_ok, Out.bind_eq, Out.pure_eq, ne_eq, not_true_eq_false,
-      decide_false, e1, twI_writeBinary_ok ew _ s hb']
-    rw [wrap_i64_of_range _ (by omega) (by omega)]
-    simp
-  · simp [hew]
+    bsimp [hl, tth_WriteUint16_cf ew hew, hb, e1, twI_writeBinary_ok ew (w.push (be16 (s.length % 65536))) s hb',
+      wrap_i64_of_range]
+    congr_omega
+  · bsimp [hl, tth_WriteUint16_cf ew hew, hb, hew]
 
 theorem tth_WriteString_cf (w : W) (s : Bytes) (hs : s.length < 2 ^ 62) :
     Funcs.tth_WriteString (twI ew) s w =
       if w.broken then .ok (w, 0, ew)
       else .ok ((w.push (be32 (s.length % 4294967296))).push s, ((s.length + 4 : Nat) : Int), GoErr.nil) := by
-  simp only [Funcs.tth_WriteString, tth_WriteUint32_cf ew hew]
+  have hl : len s = (s.length : Int) := rfl
+  unfold Funcs.tth_WriteString
   cases hb : w.broken
-  · have e1 : be32 (ofInt 32 (wrap .u32 (len s))) = be32 (s.length % 4294967296) := by
-      rw [ofInt_wrap 32 .u32 _ (by decide)]; unfold len; rw [be32_ofInt_nat, be32_mod]
+  · have e1 : be32 (ofInt 32 (wrap .u32 (s.length : Int))) = be32 (s.length % 4294967296) := by
+      rw [ofInt_wrap 32 .u32 _ (by decide), be32_ofInt_nat, be32_mod]
     have hb' : (w.push (be32 (s.length % 4294967296))).broken = false := by simp [hb]
-    simp only [Bool.false_eq_true, if_false, Out.bind_ok, Out.bind_eq, Out.pure_eq, ne_eq, not_true_eq_false,
-      decide_false, e1, twI_writeBinary_ok ew _ s hb']
-    rw [wrap_i64_of_range _ (by omega) (by omega)]
-    simp
-  · simp [hew]
+    bsimp [hl, tth_WriteUint32_cf ew hew, hb, e1, twI_writeBinary_ok ew (w.push (be32 (s.length % 4294967296))) s hb',
+      wrap_i64_of_range]
+    congr_omega
+  · bsimp [hl, tth_WriteUint32_cf ew hew, hb, hew]
 
 /-! ### the five writers of utils.go ARE the model's writers -/
 
@@ -408,105 +414,14 @@ theorem writeIntKVs_cf (it : IntMap) (sz : Nat) (w : W) (hb : w.broken = false) 
     rw [ih _ _ (by simp [hb])]
     congr 2; omega
 
-/-- the translated loops (`for … range strKVMap`, `for … range intKVMap`, the padding loop) on a writer that works -/
-theorem strLoop_cf (ew : GoErr) (hew : ew ≠ GoErr.nil) :
-    ∀ (it : List (Bytes × Bytes)) (fuel : Nat) (w : W) (szi : Int), it.length < fuel → w.broken = false →
-      0 ≤ szi → szi + strBytes it < 2 ^ 62 →
-      Funcs.tth_writeKVInfo_loop1 (twI ew) fuel it w szi =
-        .ok (.done ([], w.pushAll (strItems it), szi + (strBytes it : Int))) := by
-  intro it
-  induction it with
-  | nil =>
-    intro fuel w szi hf hb _ _
-    obtain ⟨fuel, rfl⟩ : ∃ k, fuel = k + 1 := ⟨fuel - 1, by simp at hf; omega⟩
-    simp [Funcs.tth_writeKVInfo_loop1, strItems, strBytes]
-  | cons kv rest ih =>
-    intro fuel w szi hf hb h0 hsz
-    obtain ⟨fuel, rfl⟩ : ∃ k, fuel = k + 1 := ⟨fuel - 1, by simp at hf; omega⟩
-    obtain ⟨k, v⟩ := kv
-    by_cases hk : k = gdprKey
-    · simp only [strBytes, hk, if_true] at hsz
-      simp only [Funcs.tth_writeKVInfo_loop1, gdprKey_utf8, hk, decide_true, if_true, Out.bind_eq, strItems,
-        strBytes]
-      exact ih fuel w szi (by simp at hf; omega) hb h0 (by omega)
-    · simp only [strBytes, hk, if_false] at hsz
-      have hb1 : ((w.push (be16 (k.length % 65536))).push k).broken = false := by simp [hb]
-      simp only [Funcs.tth_writeKVInfo_loop1, gdprKey_utf8, hk, decide_false, Bool.false_eq_true, if_false,
-        tth_WriteString2BLen_cf ew hew _ k (by omega), tth_WriteString2BLen_cf ew hew _ v (by omega), hb, hb1,
-        Out.bind_ok, Out.bind_eq, Out.pure_eq, ne_eq, not_true_eq_false, strItems, strBytes, W.pushAll_cons]
-      rw [wrap_i64_of_range (szi + ((k.length + 2 : Nat) : Int)) (by omega) (by omega),
-        wrap_i64_of_range _ (by omega) (by omega),
-        ih fuel _ _ (by simp at hf; omega) (by simp [hb]) (by omega) (by omega)]
-      congr 4; omega
-
 /-- the visited sequence of `map[uint16]string` as the translation takes it -/
 def intOrd (it : IntMap) : List (Int × Bytes) := it.map fun kv => ((kv.1 : Int), kv.2)
-
-theorem intLoop_cf (ew : GoErr) (hew : ew ≠ GoErr.nil) :
-    ∀ (it : IntMap) (fuel : Nat) (w : W) (szi : Int), it.length < fuel → w.broken = false →
-      0 ≤ szi → szi + intSz it < 2 ^ 62 →
-      Funcs.tth_writeKVInfo_loop2 (twI ew) fuel (intOrd it) w szi GoErr.nil =
-        .ok (.done ([], w.pushAll (intItems it), szi + (intBytes it : Int), GoErr.nil)) := by
-  intro it
-  induction it with
-  | nil =>
-    intro fuel w szi hf hb _ _
-    obtain ⟨fuel, rfl⟩ : ∃ k, fuel = k + 1 := ⟨fuel - 1, by simp at hf; omega⟩
-    simp [Funcs.tth_writeKVInfo_loop2, intOrd, intItems, intBytes]
-  | cons kv rest ih =>
-    intro fuel w szi hf hb h0 hsz
-    obtain ⟨fuel, rfl⟩ : ∃ k, fuel = k + 1 := ⟨fuel - 1, by simp at hf; omega⟩
-    obtain ⟨k, v⟩ := kv
-    rw [intSz_cons] at hsz
-    simp only at hsz
-    have hle := intBytes_le rest
-    have hb1 : (w.push (be16 k)).broken = false := by simp [hb]
-    have h4 := ih fuel (((w.push (be16 k)).push (be16 (v.length % 65536))).push v)
-      (szi + 2 + ((v.length + 2 : Nat) : Int)) (by simp at hf; omega) (by simp [hb]) (by omega) (by omega)
-    simp only [intOrd, List.map_cons, Funcs.tth_writeKVInfo_loop2, tth_WriteUint16_cf ew hew,
-      tth_WriteString2BLen_cf ew hew _ v (by omega), hb, hb1, Bool.false_eq_true, if_false, Out.bind_ok,
-      Out.bind_eq, Out.pure_eq, ne_eq, not_true_eq_false, decide_false, be16_ofInt_nat, intItems, intBytes,
-      W.pushAll_cons]
-    rw [wrap_i64_of_range (szi + 2) (by omega) (by omega), wrap_i64_of_range _ (by omega) (by omega)]
-    rw [intOrd] at h4
-    rw [h4]
-    congr 5; omega
 
 theorem vset_local (b : Bytes) (i : Nat) (x : Int) (h : i < b.length) :
     vset b 0 (i : Int) x = .ok (b.take i ++ byteOf x :: b.drop (i + 1)) := by
   have := vset_nf b 0 (i : Int) x (by omega)
   simp only [Int.natCast_zero, Nat.zero_add, Int.toNat_natCast, if_pos h] at this
   rw [this]; simp [Wire.putAt]
-
-theorem padLoop_ok {ρ : Type} (I : WriterI ρ) (st : ρ) (hd : Nat) :
-    ∀ (fuel : Nat) (b : Bytes) (i : Nat), i ≤ b.length → b.length - i < fuel → b.length < 2 ^ 62 →
-      Funcs.tth_writeKVInfo_loop3 I st hd fuel b (i : Int) =
-        .ok (.done (b.take i ++ List.replicate (b.length - i) 0, (b.length : Int))) := by
-  intro fuel
-  induction fuel with
-  | zero => intro b i _ hf _; omega
-  | succ fuel ih =>
-    intro b i hi hf hl
-    by_cases c : i < b.length
-    · have hc : decide ((i : Int) < len b) = true := by unfold len; simp; omega
-      simp only [Funcs.tth_writeKVInfo_loop3, hc, if_true, vset_local b i 0 c, Out.bind_ok, Out.bind_eq]
-      rw [wrap_i64_of_range _ (by omega) (by omega)]
-      have hlen : (b.take i ++ byteOf 0 :: b.drop (i + 1)).length = b.length := by simp; omega
-      have e : (i : Int) + 1 = ((i + 1 : Nat) : Int) := by omega
-      rw [e, ih _ (i + 1) (by rw [hlen]; omega) (by rw [hlen]; omega) (by rw [hlen]; exact hl), hlen]
-      have hA : (b.take i).length = i := by simp; omega
-      have ht : (b.take i ++ byteOf 0 :: b.drop (i + 1)).take (i + 1) = b.take i ++ [0] := by
-        rw [List.take_append, hA, List.take_of_length_le (by omega)]
-        simp [byteOf_zero]
-      rw [ht, List.append_assoc]
-      have hr : b.length - i = (b.length - (i + 1)) + 1 := by omega
-      rw [hr, List.replicate_succ]
-      simp
-    · have hi' : i = b.length := by omega
-      have hc : decide ((i : Int) < len b) = false := by unfold len; simp; omega
-      simp only [Funcs.tth_writeKVInfo_loop3, hc, Bool.false_eq_true, if_false, Out.pure_eq]
-      subst hi'
-      simp
 
 /-- what `writeKVInfo` reads of its two Go maps, in terms of the sequences the two `range` loops visit: `len(strKVMap)`,
     `strKVMap[GDPRToken]`, `len(intKVMap)` -/
@@ -517,192 +432,154 @@ structure KVArgs (mS : GoMap Bytes Bytes) (mI : GoMap Int Bytes) (strKV : StrMap
 
 theorem u16OfInt_eq (x : Int) : u16OfInt x = ofInt 16 x := rfl
 
-theorem pad_eq (x : Int) (h0 : 0 ≤ x) :
-    wrap .i64 (Int.tmod (wrap .i64 (4 - wrap .i64 (Int.tmod x 4))) 4) = (4 - x % 4) % 4 := by
-  have e1 : Int.tmod x 4 = x % 4 := Int.tmod_eq_emod_of_nonneg h0
-  rw [e1, wrap_i64_of_range (x % 4) (by omega) (by omega),
-    wrap_i64_of_range (4 - x % 4) (by omega) (by omega), Int.tmod_eq_emod_of_nonneg (by omega),
-    wrap_i64_of_range _ (by omega) (by omega)]
-
-/-- the padding block on a writer that works -/
-theorem padding_ok (ew : GoErr) (w : W) (fuel : Nat) (hf : 4 ≤ fuel) (p : Nat) (hp : p < 4) :
-    Funcs.tth_writeKVInfo_loop3 (twI ew) (w.push (w.fresh p)) w.n fuel (w.fresh p) 0 =
-      .ok (.done (List.replicate p 0, (p : Int))) := by
-  have := padLoop_ok (twI ew) (w.push (w.fresh p)) w.n fuel (w.fresh p) 0 (by omega) (by simp; omega) (by simp; omega)
-  simpa using this
-
-/-! ### the generated `writeKVInfo` as blocks (the code after an `if` is duplicated by the translator; every copy is the
-    same block) -/
-
-/-- `padding := (4 - writeSize%4) % 4; paddingBuf, err := out.Malloc(padding); for i … paddingBuf[i] = 0; writeSize +=
-    padding; return` -/
-def gPad {ρ : Type} (I : WriterI ρ) (fuel : Nat) (v_out : ρ) (v_writeSize : Int) : GM (ρ × Int × GoErr) := do
-  let v_padding := wrap .i64 (Int.tmod (wrap .i64 (4 - (wrap .i64 (Int.tmod v_writeSize 4)))) 4)
-  let t18 ← I.malloc v_out v_padding
-  let v_out := t18.2
-  let v_paddingBuf := t18.1.1
-  let v_err := t18.1.2.2
-  let t19 := t18.1.2.1
-  if decide (v_err ≠ GoErr.nil) then do
-    let v_out := I.commit v_out t19 v_paddingBuf
-    pure (v_out, v_writeSize, v_err)
-  else do
-    let v_i := 0
-    let t20 ← Funcs.tth_writeKVInfo_loop3 I v_out t19 fuel v_paddingBuf v_i
-    match t20 with
-    | LoopR.ret r => pure r
-    | LoopR.done s => do
-      let v_paddingBuf := s.1
-      let _v_i := s.2
-      let v_writeSize := wrap .i64 (v_writeSize + v_padding)
-      let v_out := I.commit v_out t19 v_paddingBuf
-      pure (v_out, v_writeSize, v_err)
-
-/-- the int key-value section, then the padding -/
-def gIntSec {ρ : Type} (I : WriterI ρ) (fuel : Nat) (ord2 : List (Int × Bytes)) (v_intKVMap : GoMap Int Bytes)
-    (v_out : ρ) (v_writeSize : Int) : GM (ρ × Int × GoErr) := do
-  let v_intKVSize := mapLen v_intKVMap
-  if decide (v_intKVSize > 0) then do
-    let t11 ← Funcs.tth_WriteByte I 16 v_out
-    let v_out := t11.1
-    let v_err := t11.2
-    if decide (v_err ≠ GoErr.nil) then do
-      pure (v_out, v_writeSize, v_err)
-    else do
-      let t12 ← Funcs.tth_WriteUint16 I (wrap .u16 v_intKVSize) v_out
-      let v_out := t12.1
-      let v_err := t12.2
-      if decide (v_err ≠ GoErr.nil) then do
-        pure (v_out, v_writeSize, v_err)
-      else do
-        let v_writeSize := wrap .i64 (v_writeSize + 3)
-        let t13 := ord2
-        let t17 ← Funcs.tth_writeKVInfo_loop2 I fuel t13 v_out v_writeSize v_err
-        match t17 with
-        | LoopR.ret r => pure r
-        | LoopR.done s => gPad I fuel s.2.1 s.2.2.1
-  else gPad I fuel v_out v_writeSize
-
-/-- the string key-value section, then the rest -/
-def gStrSec {ρ : Type} (I : WriterI ρ) (fuel : Nat) (ord1 : List (Bytes × Bytes)) (ord2 : List (Int × Bytes))
-    (v_intKVMap : GoMap Int Bytes) (v_strKVSize : Int) (v_out : ρ) (v_writeSize : Int) : GM (ρ × Int × GoErr) := do
-  if decide (v_strKVSize > 0) then do
-    let t4 ← Funcs.tth_WriteByte I 1 v_out
-    let v_out := t4.1
-    let v_err := t4.2
-    if decide (v_err ≠ GoErr.nil) then do
-      pure (v_out, v_writeSize, v_err)
-    else do
-      let t5 ← Funcs.tth_WriteUint16 I (wrap .u16 v_strKVSize) v_out
-      let v_out := t5.1
-      let v_err := t5.2
-      if decide (v_err ≠ GoErr.nil) then do
-        pure (v_out, v_writeSize, v_err)
-      else do
-        let v_writeSize := wrap .i64 (v_writeSize + 3)
-        let t6 := ord1
-        let t10 ← Funcs.tth_writeKVInfo_loop1 I fuel t6 v_out v_writeSize
-        match t10 with
-        | LoopR.ret r => pure r
-        | LoopR.done s => gIntSec I fuel ord2 v_intKVMap s.2.1 s.2.2
-  else gIntSec I fuel ord2 v_intKVMap v_out v_writeSize
-
-/-- the shape of the translator's output (definitional) -/
-theorem tth_writeKVInfo_blocks {ρ : Type} (I : WriterI ρ) (fuel : Nat) (ord1 : List (Bytes × Bytes))
-    (ord2 : List (Int × Bytes)) (sz : Int) (mI : GoMap Int Bytes) (mS : GoMap Bytes Bytes) (w : ρ) :
-    Funcs.tth_writeKVInfo I fuel ord1 ord2 sz mI mS w =
-      (let t1 := mapGet mS ("RPC_TRANSIT_gdpr-token".toUTF8.toList : Bytes)
-       if Option.isSome t1 then do
-         let t2 ← Funcs.tth_WriteByte I 17 w
-         if decide (t2.2 ≠ GoErr.nil) then pure (t2.1, sz, t2.2)
-         else do
-           let t3 ← Funcs.tth_WriteString2BLen I (Option.getD t1 ([] : Bytes)) t2.1
-           if decide (t3.2.2 ≠ GoErr.nil) then pure (t3.1, wrap .i64 (sz + 1), t3.2.2)
-           else gStrSec I fuel ord1 ord2 mI (wrap .i64 (mapLen mS - 1)) t3.1 (wrap .i64 (wrap .i64 (sz + 1) + t3.2.1))
-       else gStrSec I fuel ord1 ord2 mI (mapLen mS) w sz) := rfl
-
 theorem byteOf_kv : byteOf 1 = UInt8.ofNat Facts.ttInfoKeyValue := by decide
 theorem byteOf_intkv : byteOf 16 = UInt8.ofNat Facts.ttInfoIntKeyValue := by decide
 theorem byteOf_acl : byteOf 17 = UInt8.ofNat Facts.ttInfoACLToken := by decide
 
-/-- the simp set for the blocks on a writer that works: callees and loops to their closed forms, Go's `int` arithmetic
-    exact; side conditions by `omega` from the context or by `simp` with the writer's state -/
-macro "kv_simp" hb:ident ew:ident hew:ident : tactic => `(tactic| (
-  simp (disch := first | omega | (show _ ≤ IT.bits _; decide) | (simp [$hb:ident]; done)) only
-    [tth_WriteByte_cf $ew $hew, tth_WriteUint16_cf $ew $hew, tth_WriteString2BLen_cf $ew $hew,
-     strLoop_cf $ew $hew, intLoop_cf $ew $hew, padding_ok, pad_eq, Int.tmod_eq_emod_of_nonneg, twI_malloc_ok,
-     twI_commit_top, wrap_i64_of_range, $hb:ident, W.push_broken,
-     W.pushAll_broken, Bool.false_eq_true, if_false, if_true, Out.bind_ok, Out.bind_eq, Out.pure_eq, ne_eq,
-     not_true_eq_false, decide_false, decide_true, not_false_eq_true]))
+/-! ### the three loops of `writeKVInfo`, for ANY function with the loop's step behaviour
+
+  The generated loop functions are never named in a statement: a lemma speaks of any `L` whose round (on a writer that
+  works) appends the items and adds the byte counts the model's round does; the generated function is found by
+  unification where the lemma is used, and the round is proved there by unfolding it. -/
+
+theorem strLoop_gen {R : Type} {L : Nat → List (Bytes × Bytes) → W → Int → GM (LoopR R (List (Bytes × Bytes) × W × Int))}
+    (hnil : ∀ f w szi, L (f + 1) [] w szi = .ok (.done ([], w, szi)))
+    (hskip : ∀ f (kv : Bytes × Bytes) rest w szi, kv.1 = gdprKey → L (f + 1) (kv :: rest) w szi = L f rest w szi)
+    (hcons : ∀ f (kv : Bytes × Bytes) rest (w : W) (szi : Int), kv.1 ≠ gdprKey → w.broken = false → 0 ≤ szi →
+      szi + (kv.1.length + 2) + (kv.2.length + 2) < 2 ^ 62 →
+      L (f + 1) (kv :: rest) w szi =
+        L f rest ((((w.push (be16 (kv.1.length % 65536))).push kv.1).push (be16 (kv.2.length % 65536))).push kv.2)
+          (szi + ((kv.1.length + 2 + (kv.2.length + 2) : Nat) : Int))) :
+    ∀ (it : List (Bytes × Bytes)) (fuel : Nat) (w : W) (szi : Int), it.length < fuel → w.broken = false →
+      0 ≤ szi → szi + strBytes it < 2 ^ 62 →
+      L fuel it w szi = .ok (.done ([], w.pushAll (strItems it), szi + (strBytes it : Int))) := by
+  intro it
+  induction it with
+  | nil =>
+    intro fuel w szi hf hb _ _
+    obtain ⟨fuel, rfl⟩ : ∃ k, fuel = k + 1 := ⟨fuel - 1, by simp at hf; omega⟩
+    rw [hnil]; simp [strItems, strBytes]
+  | cons kv rest ih =>
+    intro fuel w szi hf hb h0 hsz
+    obtain ⟨fuel, rfl⟩ : ∃ k, fuel = k + 1 := ⟨fuel - 1, by simp at hf; omega⟩
+    by_cases hk : kv.1 = gdprKey
+    · simp only [strBytes, strItems, hk, if_true] at hsz ⊢
+      rw [hskip _ _ _ _ _ hk]
+      exact ih fuel w szi (by simp at hf; omega) hb h0 hsz
+    · simp only [strBytes, strItems, hk, if_false, W.pushAll_cons] at hsz ⊢
+      rw [hcons _ _ _ _ _ hk hb h0 (by omega), ih fuel _ _ (by simp at hf; omega) (by simp [hb]) (by omega) (by omega)]
+      congr 4; omega
+
+theorem intLoop_gen {R σ : Type}
+    {L : Nat → List (Int × Bytes) → W → Int → σ → GM (LoopR R (List (Int × Bytes) × W × Int × σ))}
+    {E : Nat → Nat × Bytes → List (Int × Bytes) → W → Int → σ → σ}
+    (hnil : ∀ f w szi e, L (f + 1) [] w szi e = .ok (.done ([], w, szi, e)))
+    (hcons : ∀ f (kv : Nat × Bytes) (rest : List (Int × Bytes)) (w : W) (szi : Int) e, w.broken = false → 0 ≤ szi →
+      szi + 2 + (kv.2.length + 2) < 2 ^ 62 →
+      L (f + 1) (((kv.1 : Int), kv.2) :: rest) w szi e =
+        L f rest (((w.push (be16 kv.1)).push (be16 (kv.2.length % 65536))).push kv.2)
+          (szi + ((2 + (kv.2.length + 2) : Nat) : Int)) (E f kv rest w szi e)) :
+    ∀ (it : IntMap) (fuel : Nat) (w : W) (szi : Int) (e : σ), it.length < fuel → w.broken = false →
+      0 ≤ szi → szi + intBytes it < 2 ^ 62 →
+      ∃ e', L fuel (intOrd it) w szi e = .ok (.done ([], w.pushAll (intItems it), szi + (intBytes it : Int), e')) := by
+  intro it
+  induction it with
+  | nil =>
+    intro fuel w szi e hf hb _ _
+    obtain ⟨fuel, rfl⟩ : ∃ k, fuel = k + 1 := ⟨fuel - 1, by simp at hf; omega⟩
+    exact ⟨e, by rw [intOrd, List.map_nil, hnil]; simp [intItems, intBytes]⟩
+  | cons kv rest ih =>
+    intro fuel w szi e hf hb h0 hsz
+    obtain ⟨fuel, rfl⟩ : ∃ k, fuel = k + 1 := ⟨fuel - 1, by simp at hf; omega⟩
+    simp only [intBytes, intItems, W.pushAll_cons] at hsz ⊢
+    have h1 := hcons fuel kv (intOrd rest) w szi e hb h0 (by omega)
+    obtain ⟨e2, h2⟩ := ih fuel (((w.push (be16 kv.1)).push (be16 (kv.2.length % 65536))).push kv.2)
+      (szi + ((2 + (kv.2.length + 2) : Nat) : Int)) (E fuel kv (intOrd rest) w szi e) (by simp at hf; omega)
+      (by simp [hb]) (by omega) (by omega)
+    refine ⟨e2, ?_⟩
+    rw [intOrd, List.map_cons, ← intOrd, h1, h2]
+    congr 5; omega
+
+/-- the padding loop from index 0: every byte of the region is set to 0 (`hstep`: one round below the length, `hdone`:
+    done at the length; both about any buffer of the region's length) -/
+theorem padLoop_gen {R : Type} {L : Nat → Bytes → Int → GM (LoopR R (Bytes × Int))} (b0 : Bytes)
+    (hstep : ∀ f (b : Bytes) (i : Nat), b.length = b0.length → i < b0.length →
+      L (f + 1) b (i : Int) = L f (b.take i ++ 0 :: b.drop (i + 1)) ((i + 1 : Nat) : Int))
+    (hdone : ∀ f (b : Bytes), b.length = b0.length → L (f + 1) b (b0.length : Int) = .ok (.done (b, (b0.length : Int))))
+    (fuel : Nat) (hf : b0.length < fuel) :
+    L fuel b0 ((0 : Nat) : Int) = .ok (.done (List.replicate b0.length 0, (b0.length : Int))) := by
+  have key : ∀ (k fuel : Nat) (b : Bytes) (i : Nat), b.length = b0.length → i + k = b0.length → k < fuel →
+      L fuel b (i : Int) = .ok (.done (b.take i ++ List.replicate k 0, (b0.length : Int))) := by
+    intro k
+    induction k with
+    | zero =>
+      intro fuel b i hb hi hf
+      obtain ⟨fuel, rfl⟩ : ∃ k, fuel = k + 1 := ⟨fuel - 1, by omega⟩
+      have : i = b0.length := by omega
+      subst this
+      rw [hdone _ _ hb]
+      simp [← hb]
+    | succ k ih =>
+      intro fuel b i hb hi hf
+      obtain ⟨fuel, rfl⟩ : ∃ k, fuel = k + 1 := ⟨fuel - 1, by omega⟩
+      rw [hstep _ _ _ hb (by omega)]
+      have hlen : (b.take i ++ 0 :: b.drop (i + 1)).length = b0.length := by simp; omega
+      rw [ih fuel _ (i + 1) hlen (by omega) (by omega)]
+      have hA : (b.take i).length = i := by simp; omega
+      have ht : (b.take i ++ 0 :: b.drop (i + 1)).take (i + 1) = b.take i ++ [0] := by
+        rw [List.take_append, hA, List.take_of_length_le (by omega)]
+        simp
+      rw [ht, List.append_assoc]
+      simp [List.replicate_succ]
+  have := key b0.length fuel b0 0 rfl (by omega) hf
+  simpa using this
+
+theorem intLoop_bind {R σ β : Type}
+    {L : Nat → List (Int × Bytes) → W → Int → σ → GM (LoopR R (List (Int × Bytes) × W × Int × σ))}
+    {F : LoopR R (List (Int × Bytes) × W × Int × σ) → GM β} {Res : GM β}
+    {E : Nat → Nat × Bytes → List (Int × Bytes) → W → Int → σ → σ}
+    (hnil : ∀ f w szi e, L (f + 1) [] w szi e = .ok (.done ([], w, szi, e)))
+    (hcons : ∀ f (kv : Nat × Bytes) (rest : List (Int × Bytes)) (w : W) (szi : Int) e, w.broken = false → 0 ≤ szi →
+      szi + 2 + (kv.2.length + 2) < 2 ^ 62 →
+      L (f + 1) (((kv.1 : Int), kv.2) :: rest) w szi e =
+        L f rest (((w.push (be16 kv.1)).push (be16 (kv.2.length % 65536))).push kv.2)
+          (szi + ((2 + (kv.2.length + 2) : Nat) : Int)) (E f kv rest w szi e))
+    (it : IntMap) (fuel : Nat) (w : W) (szi : Int) (e : σ) (hf : it.length < fuel) (hb : w.broken = false)
+    (h0 : 0 ≤ szi) (hsz : szi + intBytes it < 2 ^ 62)
+    (hF : ∀ e', F (.done ([], w.pushAll (intItems it), szi + (intBytes it : Int), e')) = Res) :
+    (L fuel (intOrd it) w szi e).bind F = Res := by
+  obtain ⟨e', h⟩ := intLoop_gen hnil hcons it fuel w szi e hf hb h0 hsz
+  rw [h, Out.bind_ok, hF]
+
+theorem bind_eq_of {α β : Type} {x : GM α} {v : α} {K : α → GM β} {R : GM β} (h : x = .ok v) (hK : K v = R) :
+    x.bind K = R := by
+  rw [h]; exact hK
+
+/-! ### walking the generated `writeKVInfo` / `Encode` on a writer that works
+
+  The generated function is unfolded, its guards are decided from the semantic case split (`bsimp` with the facts in the
+  context), and then it is walked from the head: the call at the head has a closed form (`tth_*_ok`, `twI_malloc_ok`,
+  the loop lemmas — chosen by unification, `tth_step`), `bind_eq_of` applies the continuation to its value and `tth_norm`
+  decides the error test that follows. Only the head is ever rewritten: statements under a binder are not touched until
+  they are reached, so the order of `let`s, hoisted sub-expressions, inverted error tests or un-nested returns do not
+  matter. -/
 
 section kv
 variable (ew : GoErr) (hew : ew ≠ GoErr.nil)
 include hew
 
-omit hew in
-theorem gPad_cf (fuel : Nat) (hf : 4 ≤ fuel) (w : W) (hb : w.broken = false) (szi : Int) (h0 : 0 ≤ szi)
-    (h1 : szi < 2 ^ 62) :
-    gPad (twI ew) fuel w szi =
-      .ok (w.push (List.replicate ((4 - szi % 4) % 4).toNat 0), szi + (4 - szi % 4) % 4, GoErr.nil) := by
-  unfold gPad
-  simp (disch := first | omega | (simp [hb]; done)) only
-    [padding_ok, pad_eq, twI_malloc_ok, twI_commit_top, wrap_i64_of_range, Out.bind_ok, Out.bind_eq, Out.pure_eq,
-     ne_eq, not_true_eq_false, decide_false, Bool.false_eq_true, if_false]
+theorem tth_WriteByte_ok (w : W) (v : Int) (hb : w.broken = false) :
+    Funcs.tth_WriteByte (twI ew) v w = .ok (w.push [byteOf v], GoErr.nil) := by
+  rw [tth_WriteByte_cf ew hew, hb]; rfl
 
-theorem gPad_broken (fuel : Nat) (w : W) (hb : w.broken = true) (szi : Int) :
-    gPad (twI ew) fuel w szi = .ok (w, szi, ew) := by
-  simp [gPad, twI_malloc_broken ew w _ hb, twI_commit_none, hew]
+theorem tth_WriteUint16_ok (w : W) (v : Int) (hb : w.broken = false) :
+    Funcs.tth_WriteUint16 (twI ew) v w = .ok (w.push (be16 (ofInt 16 v)), GoErr.nil) := by
+  rw [tth_WriteUint16_cf ew hew, hb]; rfl
 
-theorem gIntSec_cf (fuel : Nat) (intKV : IntMap) (hfi : intKV.length < fuel) (mI : GoMap Int Bytes)
-    (hI : mapLen mI = (intKV.length : Int)) (w : W) (hb : w.broken = false) (szi : Int) (h0 : 0 ≤ szi)
-    (h1 : szi + intSz intKV + 8 < 2 ^ 62) :
-    gIntSec (twI ew) fuel (intOrd intKV) mI w szi =
-      if 0 < intKV.length then
-        gPad (twI ew) fuel
-          (((w.push [UInt8.ofNat Facts.ttInfoIntKeyValue]).push (be16 (ofInt 16 (intKV.length : Int)))).pushAll
-            (intItems intKV)) (szi + 3 + (intBytes intKV : Int))
-      else gPad (twI ew) fuel w szi := by
-  have hle := intBytes_le intKV
-  have hle4 := intSz_ge_len intKV
-  unfold gIntSec
-  by_cases c : 0 < intKV.length
-  · have c' : ((intKV.length : Int) > 0) := by omega
-    simp only [hI, c, c', decide_true, if_true]
-    kv_simp hb ew hew
-    simp only [byteOf_intkv, ofInt_wrap 16 .u16 _ (by decide)]
-  · have c' : ¬ ((intKV.length : Int) > 0) := by omega
-    simp only [hI, c, c', decide_false, if_false, Bool.false_eq_true]
-
-theorem gIntSec_broken (fuel : Nat) (o2 : List (Int × Bytes)) (mI : GoMap Int Bytes) (w : W) (hb : w.broken = true)
-    (szi : Int) : gIntSec (twI ew) fuel o2 mI w szi = .ok (w, szi, ew) := by
-  unfold gIntSec
-  by_cases c : mapLen mI > 0
-  · simp [c, tth_WriteByte_cf ew hew, hb, hew]
-  · simp [c, gPad_broken ew hew fuel w hb]
-
-theorem gStrSec_cf (fuel : Nat) (strKV : StrMap) (hfs : strKV.length < fuel) (o2 : List (Int × Bytes))
-    (mI : GoMap Int Bytes) (n : Int) (w : W) (hb : w.broken = false) (szi : Int)
-    (h0 : 0 ≤ szi) (h1 : szi + strBytes strKV + 8 < 2 ^ 62) :
-    gStrSec (twI ew) fuel strKV o2 mI n w szi =
-      if n > 0 then
-        gIntSec (twI ew) fuel o2 mI
-          (((w.push [UInt8.ofNat Facts.ttInfoKeyValue]).push (be16 (ofInt 16 n))).pushAll (strItems strKV))
-          (szi + 3 + (strBytes strKV : Int))
-      else gIntSec (twI ew) fuel o2 mI w szi := by
-  unfold gStrSec
-  by_cases c : n > 0
-  · simp only [c, decide_true, if_true]
-    kv_simp hb ew hew
-    simp only [byteOf_kv, ofInt_wrap 16 .u16 _ (by decide)]
-  · simp only [c, decide_false, if_false, Bool.false_eq_true]
-
-theorem gStrSec_broken (fuel : Nat) (o1 : List (Bytes × Bytes)) (o2 : List (Int × Bytes)) (mI : GoMap Int Bytes)
-    (n : Int) (w : W) (hb : w.broken = true) (szi : Int) :
-    gStrSec (twI ew) fuel o1 o2 mI n w szi = .ok (w, szi, ew) := by
-  unfold gStrSec
-  by_cases c : n > 0
-  · simp [c, tth_WriteByte_cf ew hew, hb, hew]
-  · simp [c, gIntSec_broken ew hew fuel o2 mI w hb]
+theorem tth_WriteString2BLen_ok (w : W) (s : Bytes) (hb : w.broken = false) (hs : s.length < 2 ^ 62) :
+    Funcs.tth_WriteString2BLen (twI ew) s w =
+      .ok ((w.push (be16 (s.length % 65536))).push s, ((s.length + 2 : Nat) : Int), GoErr.nil) := by
+  rw [tth_WriteString2BLen_cf ew hew w s hs, hb]; rfl
 
 /-! ### the model's sections in closed form -/
 
@@ -843,84 +720,224 @@ theorem writeKVInfo_cf (sz : Nat) (intKV : IntMap) (strKV : StrMap) (w : W) (hb 
         rw [writePadding_cf _ _ (by simp [hb])]
         simp [W.pushAll_append]
 
+-- the closed forms are selected by unification with the call at the head: a mismatch must fail at once
+attribute [local irreducible] Funcs.tth_WriteByte Funcs.tth_WriteUint16 Funcs.tth_WriteUint32
+  Funcs.tth_WriteString2BLen Funcs.tth_WriteString Funcs.tth_writeKVInfo Funcs.tth_writeKVInfo_loop1
+  Funcs.tth_writeKVInfo_loop2 Funcs.tth_writeKVInfo_loop3 Funcs.tth_Encode_loop1
+
+/-- the empty round of a generated loop -/
+macro "kv_nil" : tactic => `(tactic| (intros; simp only [Funcs.tth_writeKVInfo_loop1, Funcs.tth_writeKVInfo_loop2,
+  Funcs.tth_writeKVInfo_loop3, Out.pure_eq]))
+
+/-- `bsimp` with every hypothesis of the context as a rewrite rule -/
+macro "bsimps" : tactic =>
+  `(tactic| simp (disch := omega) only [if_pos, if_neg, if_true, if_false, Out.bind_ok, Out.bind_panic, Out.pure_eq,
+      Out.bind_eq, Option.isNone_none, Option.isNone_some, Option.isSome_none, Option.isSome_some, Bool.or_eq_true,
+      Bool.and_eq_true, Bool.not_eq_true', Bool.not_eq_true, decide_eq_true_eq, decide_eq_false_iff_not,
+      Bool.false_eq_true, Bool.true_eq_false, true_or, or_true, false_or, or_false, true_and, and_true, false_and,
+      and_false, not_true_eq_false, not_false_eq_true, eq_self, ne_eq, Classical.not_not, ge_iff_le, gt_iff_lt,
+      Nat.not_lt, Nat.not_le, Int.not_lt, Int.not_le, Bool.not_true, Bool.not_false, decide_true, decide_false,
+      reduceCtorEq, gdprKey_utf8, wrap_i64_of_range, Option.getD_none, Option.getD_some, *])
+
+/-- a guard at the head of the generated code holds / fails: decided from the facts in the context -/
+macro "guard_tac" : tactic => `(tactic| ((try bsimps); first | done | omega))
+
+/-- the writer still works -/
+macro "hb_tac" : tactic => `(tactic| ((try simp only [W.push_broken, W.pushAll_broken]); assumption))
+
+/-- a size expression of the generated code is in range: `wrap`s and `%` removed, then arithmetic -/
+macro "rng_tac" : tactic => `(tactic| first
+  | omega
+  | (simp (disch := omega) only [wrap_i64_of_range, Int.tmod_eq_emod_of_nonneg]; omega))
+
+/-- after a step: the continuation applied to the value, the error test that follows decided -/
+macro "tth_norm" : tactic => `(tactic| try (simp only [Out.bind_ok, Out.pure_eq, ne_eq, not_true_eq_false,
+  not_false_eq_true, eq_self, decide_true, decide_false, Bool.false_eq_true, Bool.not_true, Bool.not_false, if_true,
+  if_false, twI_commit_top, reduceCtorEq]))
+
+set_option hygiene false in
+/-- the round of the generated padding loop (`hstep` / `hdone` of `padLoop_gen`): unfold whichever loop function it is -/
+macro "pad_round" : tactic => `(tactic| (
+  intros
+  simp only [W.fresh_length] at *
+  simp only [Funcs.tth_writeKVInfo_loop1, Funcs.tth_writeKVInfo_loop2, Funcs.tth_writeKVInfo_loop3]
+  (try unfold len)
+  bsimp [vset_local, byteOf_zero, wrap_i64_of_range, Int.natCast_add, Int.natCast_one, W.fresh_length]
+  first | done | (with_reducible rfl) | congr_omega))
+
+set_option hygiene false in
+/-- one call at the head of generated code on a writer that works (the closed form is chosen by the TYPE of the value
+    the call returns and, among the writers, by the irreducible head constant: a mismatch fails at once) -/
+macro "tth_call" : tactic => `(tactic| (first
+  | (show @Out.bind Empty (W × GoErr) _ _ _ = _; first
+      | refine bind_eq_of (tth_WriteByte_ok ew hew _ _ (by hb_tac)) ?_
+      | refine bind_eq_of (tth_WriteUint16_ok ew hew _ _ (by hb_tac)) ?_)
+  | (show @Out.bind Empty (W × Int × GoErr) _ _ _ = _
+     refine bind_eq_of (tth_WriteString2BLen_ok ew hew _ _ (by hb_tac) (by omega)) ?_)
+  | (show @Out.bind Empty ((Bytes × Nat × GoErr) × W) _ _ _ = _
+     (try simp (disch := omega) only [wrap_i64_of_range, Int.tmod_eq_emod_of_nonneg])
+     refine bind_eq_of (twI_malloc_ok ew _ _ (by hb_tac) (by rng_tac)) ?_)
+  | (show @Out.bind Empty (LoopR _ (Bytes × Int)) _ _ _ = _
+     refine bind_eq_of (padLoop_gen _ (by pad_round) (by pad_round) _ (by simp only [W.fresh_length]; rng_tac)) ?_)))
+
+set_option hygiene false in
+/-- the rounds of the two key-value loops (hypotheses of `strLoop_gen` / `intLoop_bind`) -/
+macro "kv_round" : tactic => `(tactic| (
+  intros
+  simp only [Funcs.tth_writeKVInfo_loop1, Funcs.tth_writeKVInfo_loop2, Funcs.tth_writeKVInfo_loop3]
+  (try bsimps)
+  repeat (tth_call; tth_norm)
+  (try (simp (disch := omega) only [wrap_i64_of_range, be16_ofInt_nat]))
+  first | done | (with_reducible rfl) | congr_omega))
+
+set_option hygiene false in
+macro "kv_skip" : tactic => `(tactic| (
+  intros
+  simp only [Funcs.tth_writeKVInfo_loop1, Funcs.tth_writeKVInfo_loop2, Funcs.tth_writeKVInfo_loop3]
+  (try bsimps)))
+
+set_option hygiene false in
+/-- one statement at the head: a call, or one of the two key-value loops -/
+macro "tth_step1" : tactic => `(tactic| (first
+  | refine Eq.trans (if_pos (by guard_tac)) ?_
+  | refine Eq.trans (if_neg (by guard_tac)) ?_
+  | tth_call
+  | (show @Out.bind Empty (LoopR _ (List (Bytes × Bytes) × W × Int)) _ _ _ = _
+     refine bind_eq_of (strLoop_gen (by kv_nil) (by kv_skip) (by kv_round) _ _ _ _ (by omega) (by hb_tac)
+       (by rng_tac) (by rng_tac)) ?_)
+  | (show @Out.bind Empty (LoopR _ (List (Int × Bytes) × W × Int × _)) _ _ _ = _
+     refine intLoop_bind (by kv_nil) (by kv_round) _ _ _ _ _ (by omega) (by hb_tac) (by rng_tac) (by rng_tac) ?_
+     intro _)))
+
+macro "tth_step" : tactic => `(tactic| (tth_step1; tth_norm))
+
+/-- the statement of `tth_writeKVInfo_cf` (proved case by case: token or not, string section or not, int section or not) -/
+def KVcf (fuel : Nat) (sz : Nat) (mI : GoMap Int Bytes) (mS : GoMap Bytes Bytes) (intKV : IntMap) (strKV : StrMap)
+    (w : W) : Prop :=
+  Funcs.tth_writeKVInfo (twI ew) fuel strKV (intOrd intKV) (sz : Int) mI mS w =
+    .ok (w.pushAll (kvRun sz intKV strKV).2, ((kvRun sz intKV strKV).1 : Int), GoErr.nil)
+
+set_option hygiene false in
+/-- one case of `writeKVInfo`: the model's side with its guards decided, the map lookups of the generated code replaced
+    by what `KVArgs` says of them, then the walk through the generated code, then the two results compared (constants,
+    `len` of the maps, arithmetic) -/
+macro "kv_leaf" : tactic => `(tactic| (
+  obtain ⟨hS, hG, hI⟩ := H
+  have hle1 := strBytes_le strKV
+  have hle2 := intBytes_le intKV
+  have hle3 := strSz_ge_len strKV
+  have hle4 := intSz_ge_len intKV
+  (try (have htok := lookup_strBytes strKV _ hl; have htok2 := lookup_le_strSz strKV gdprKey _ hl))
+  unfold KVcf kvRun
+  simp (disch := omega) only [hl, if_pos, if_neg, gt_iff_lt, List.nil_append, List.cons_append, W.pushAll_append,
+    W.pushAll_cons, W.pushAll_nil]
+  unfold Funcs.tth_writeKVInfo
+  simp only [Out.bind_eq, Out.pure_eq, gdprKey_utf8, hG, hl, Option.getD_some, Option.getD_none]
+  repeat tth_step
+  simp only [byteOf_kv, byteOf_intkv, byteOf_acl, ofInt_wrap 16 .u16 _ (by decide), W.fresh_length, hS, hI]
+  first | done | (with_reducible rfl) | congr_omega))
+
+set_option linter.unusedSectionVars false
+
+section cases
+variable (fuel : Nat) (sz : Nat) (mI : GoMap Int Bytes) (mS : GoMap Bytes Bytes) (intKV : IntMap) (strKV : StrMap)
+  (w : W) (H : KVArgs mS mI strKV intKV) (hf1 : strKV.length < fuel) (hf2 : intKV.length < fuel) (hf3 : 4 ≤ fuel)
+  (hsz : sz + strSz strKV + intSz intKV + 32 < 2 ^ 62) (hb : w.broken = false)
+include H hf1 hf2 hf3 hsz hb
+
+theorem kvcf_n11 (hl : strKV.lookup gdprKey = none) (c1 : 0 < strKV.length) (c2 : 0 < intKV.length) :
+    KVcf ew fuel sz mI mS intKV strKV w := by kv_leaf
+theorem kvcf_n10 (hl : strKV.lookup gdprKey = none) (c1 : 0 < strKV.length) (c2 : ¬ 0 < intKV.length) :
+    KVcf ew fuel sz mI mS intKV strKV w := by kv_leaf
+theorem kvcf_n01 (hl : strKV.lookup gdprKey = none) (c1 : ¬ 0 < strKV.length) (c2 : 0 < intKV.length) :
+    KVcf ew fuel sz mI mS intKV strKV w := by kv_leaf
+theorem kvcf_n00 (hl : strKV.lookup gdprKey = none) (c1 : ¬ 0 < strKV.length) (c2 : ¬ 0 < intKV.length) :
+    KVcf ew fuel sz mI mS intKV strKV w := by kv_leaf
+theorem kvcf_t11 (tok : Bytes) (hl : strKV.lookup gdprKey = some tok) (c1 : 1 < strKV.length) (c2 : 0 < intKV.length) :
+    KVcf ew fuel sz mI mS intKV strKV w := by kv_leaf
+theorem kvcf_t10 (tok : Bytes) (hl : strKV.lookup gdprKey = some tok) (c1 : 1 < strKV.length)
+    (c2 : ¬ 0 < intKV.length) : KVcf ew fuel sz mI mS intKV strKV w := by kv_leaf
+theorem kvcf_t01 (tok : Bytes) (hl : strKV.lookup gdprKey = some tok) (c1 : ¬ 1 < strKV.length)
+    (c2 : 0 < intKV.length) : KVcf ew fuel sz mI mS intKV strKV w := by kv_leaf
+theorem kvcf_t00 (tok : Bytes) (hl : strKV.lookup gdprKey = some tok) (c1 : ¬ 1 < strKV.length)
+    (c2 : ¬ 0 < intKV.length) : KVcf ew fuel sz mI mS intKV strKV w := by kv_leaf
+
+end cases
+
 /-- the translation in closed form: the same size and the same items as the model, on every writer that works -/
 theorem tth_writeKVInfo_cf (fuel : Nat) (sz : Nat) (mI : GoMap Int Bytes) (mS : GoMap Bytes Bytes) (intKV : IntMap)
     (strKV : StrMap) (w : W) (H : KVArgs mS mI strKV intKV) (hf1 : strKV.length < fuel) (hf2 : intKV.length < fuel)
     (hf3 : 4 ≤ fuel) (hsz : sz + strSz strKV + intSz intKV + 32 < 2 ^ 62) (hb : w.broken = false) :
     Funcs.tth_writeKVInfo (twI ew) fuel strKV (intOrd intKV) (sz : Int) mI mS w =
       .ok (w.pushAll (kvRun sz intKV strKV).2, ((kvRun sz intKV strKV).1 : Int), GoErr.nil) := by
-  obtain ⟨hS, hG, hI⟩ := H
-  have hle1 := strBytes_le strKV
-  have hle2 := intBytes_le intKV
-  have hle3 := strSz_ge_len strKV
-  have hle4 := intSz_ge_len intKV
-  rw [tth_writeKVInfo_blocks]
-  simp only [gdprKey_utf8, hG, hS]
-  unfold kvRun
   cases hl : strKV.lookup gdprKey with
   | none =>
-    simp only [Option.isSome_none, Bool.false_eq_true, if_false]
-    rw [gStrSec_cf ew hew fuel strKV hf1 _ mI _ w hb _ (by omega) (by omega)]
-    by_cases c1 : ((strKV.length : Int) > 0)
-    · simp only [c1, if_true]
-      rw [gIntSec_cf ew hew fuel intKV hf2 mI hI _ (by simp [hb]) _ (by omega) (by omega)]
-      by_cases c2 : 0 < intKV.length
-      · simp only [c2, if_true]
-        rw [gPad_cf ew fuel hf3 _ (by simp [hb]) _ (by omega) (by omega)]
-        simp only [W.pushAll_append, W.pushAll_cons, W.pushAll_nil, List.nil_append]
-        congr_omega
-      · simp only [c2, if_false]
-        rw [gPad_cf ew fuel hf3 _ (by simp [hb]) _ (by omega) (by omega)]
-        simp only [W.pushAll_append, W.pushAll_cons, W.pushAll_nil, List.nil_append]
-        congr_omega
-    · simp only [c1, if_false]
-      rw [gIntSec_cf ew hew fuel intKV hf2 mI hI _ hb _ (by omega) (by omega)]
-      by_cases c2 : 0 < intKV.length
-      · simp only [c2, if_true]
-        rw [gPad_cf ew fuel hf3 _ (by simp [hb]) _ (by omega) (by omega)]
-        simp only [W.pushAll_append, W.pushAll_cons, W.pushAll_nil, List.nil_append]
-        congr_omega
-      · simp only [c2, if_false]
-        rw [gPad_cf ew fuel hf3 _ hb _ (by omega) (by omega)]
-        simp only [W.pushAll_append, W.pushAll_cons, W.pushAll_nil, List.nil_append]
-        congr_omega
+    by_cases c1 : 0 < strKV.length <;> by_cases c2 : 0 < intKV.length
+    · exact kvcf_n11 ew hew fuel sz mI mS intKV strKV w H hf1 hf2 hf3 hsz hb hl c1 c2
+    · exact kvcf_n10 ew hew fuel sz mI mS intKV strKV w H hf1 hf2 hf3 hsz hb hl c1 c2
+    · exact kvcf_n01 ew hew fuel sz mI mS intKV strKV w H hf1 hf2 hf3 hsz hb hl c1 c2
+    · exact kvcf_n00 ew hew fuel sz mI mS intKV strKV w H hf1 hf2 hf3 hsz hb hl c1 c2
   | some tok =>
-    have htok := lookup_strBytes strKV tok hl
-    simp (disch := omega) only [Option.isSome_some, if_true, Option.getD_some, tth_WriteByte_cf ew hew,
-      tth_WriteString2BLen_cf ew hew, hb, W.push_broken, Bool.false_eq_true, if_false, Out.bind_ok, Out.bind_eq,
-      Out.pure_eq, ne_eq, not_true_eq_false, decide_false, wrap_i64_of_range, byteOf_acl]
-    rw [gStrSec_cf ew hew fuel strKV hf1 _ mI _ _ (by simp [hb]) _ (by omega) (by omega)]
-    by_cases c1 : ((strKV.length : Int) - 1 > 0)
-    · simp only [c1, if_true]
-      rw [gIntSec_cf ew hew fuel intKV hf2 mI hI _ (by simp [hb]) _ (by omega) (by omega)]
-      by_cases c2 : 0 < intKV.length
-      · simp only [c2, if_true]
-        rw [gPad_cf ew fuel hf3 _ (by simp [hb]) _ (by omega) (by omega)]
-        simp only [W.pushAll_append, W.pushAll_cons, W.pushAll_nil, List.nil_append]
-        congr_omega
-      · simp only [c2, if_false]
-        rw [gPad_cf ew fuel hf3 _ (by simp [hb]) _ (by omega) (by omega)]
-        simp only [W.pushAll_append, W.pushAll_cons, W.pushAll_nil, List.nil_append]
-        congr_omega
-    · simp only [c1, if_false]
-      rw [gIntSec_cf ew hew fuel intKV hf2 mI hI _ (by simp [hb]) _ (by omega) (by omega)]
-      by_cases c2 : 0 < intKV.length
-      · simp only [c2, if_true]
-        rw [gPad_cf ew fuel hf3 _ (by simp [hb]) _ (by omega) (by omega)]
-        simp only [W.pushAll_append, W.pushAll_cons, W.pushAll_nil, List.nil_append]
-        congr_omega
-      · simp only [c2, if_false]
-        rw [gPad_cf ew fuel hf3 _ (by simp [hb]) _ (by omega) (by omega)]
-        simp only [W.pushAll_append, W.pushAll_cons, W.pushAll_nil, List.nil_append]
-        congr_omega
+    by_cases c1 : 1 < strKV.length <;> by_cases c2 : 0 < intKV.length
+    · exact kvcf_t11 ew hew fuel sz mI mS intKV strKV w H hf1 hf2 hf3 hsz hb tok hl c1 c2
+    · exact kvcf_t10 ew hew fuel sz mI mS intKV strKV w H hf1 hf2 hf3 hsz hb tok hl c1 c2
+    · exact kvcf_t01 ew hew fuel sz mI mS intKV strKV w H hf1 hf2 hf3 hsz hb tok hl c1 c2
+    · exact kvcf_t00 ew hew fuel sz mI mS intKV strKV w H hf1 hf2 hf3 hsz hb tok hl c1 c2
+
+/-! ### … and on a broken writer: whichever call comes first fails, the error is returned at once -/
+
+/-- stops with the writer's error, the writer unchanged -/
+def Brk (w : W) (x : GM (W × Int × GoErr)) : Prop := ∃ n, x = .ok (w, n, ew)
+
+omit hew in
+theorem brk_ret (w : W) (n : Int) : Brk ew w (.ok (w, n, ew)) := ⟨n, rfl⟩
+
+omit hew in
+theorem brk_ite (w : W) {c : Prop} [Decidable c] {A B : GM (W × Int × GoErr)} (hA : c → Brk ew w A)
+    (hB : ¬ c → Brk ew w B) : Brk ew w (if c then A else B) := by
+  by_cases h : c
+  · rw [if_pos h]; exact hA h
+  · rw [if_neg h]; exact hB h
+
+omit hew in
+theorem brk_bind (w : W) {α : Type} {x : GM α} {v : α} {K : α → GM (W × Int × GoErr)} (h : x = .ok v)
+    (hK : Brk ew w (K v)) : Brk ew w (x.bind K) := by
+  rw [h]; exact hK
+
+theorem tth_WriteByte_brk (w : W) (v : Int) (hb : w.broken = true) : Funcs.tth_WriteByte (twI ew) v w = .ok (w, ew) := by
+  rw [tth_WriteByte_cf ew hew, hb]; rfl
+
+theorem tth_WriteUint16_brk (w : W) (v : Int) (hb : w.broken = true) :
+    Funcs.tth_WriteUint16 (twI ew) v w = .ok (w, ew) := by
+  rw [tth_WriteUint16_cf ew hew, hb]; rfl
+
+set_option hygiene false in
+/-- the first call on a broken writer fails -/
+macro "brk_call" : tactic => `(tactic| (first
+  | refine brk_bind ew _ (tth_WriteByte_brk ew hew _ _ hb) ?_
+  | refine brk_bind ew _ (tth_WriteUint16_brk ew hew _ _ hb) ?_
+  | refine brk_bind ew _ (twI_malloc_broken ew _ _ hb) ?_))
+
+set_option hygiene false in
+/-- … and the error test after it is decided -/
+macro "brk_norm" : tactic => `(tactic| try (simp only [Out.bind_ok, Out.pure_eq, hew, ne_eq, not_true_eq_false,
+  not_false_eq_true, eq_self, decide_true, decide_false, Bool.false_eq_true, Bool.not_true, Bool.not_false, if_true,
+  if_false, twI_commit_none, reduceCtorEq]))
+
+set_option hygiene false in
+/-- one step on a broken writer: the error returned, a guard (both ways), or the first call -/
+macro "brk_step" : tactic => `(tactic| (first
+  | exact brk_ret ew _ _
+  | refine brk_ite ew _ (fun _ => ?_) (fun _ => ?_)
+  | (brk_call; brk_norm)))
 
 theorem tth_writeKVInfo_broken (fuel : Nat) (szi : Int) (mI : GoMap Int Bytes) (mS : GoMap Bytes Bytes)
     (o1 : List (Bytes × Bytes)) (o2 : List (Int × Bytes)) (w : W) (hb : w.broken = true) :
     ∃ n, Funcs.tth_writeKVInfo (twI ew) fuel o1 o2 szi mI mS w = .ok (w, n, ew) := by
-  rw [tth_writeKVInfo_blocks]
-  cases mapGet mS ("RPC_TRANSIT_gdpr-token".toUTF8.toList : Bytes) with
-  | none => exact ⟨szi, by simp [gStrSec_broken ew hew _ _ _ _ _ w hb]⟩
-  | some tok => exact ⟨szi, by simp [tth_WriteByte_cf ew hew, hb, hew]⟩
+  show Brk ew w _
+  unfold Funcs.tth_writeKVInfo
+  simp only [Out.bind_eq, Out.pure_eq]
+  repeat' brk_step
 
 /-- `writeKVInfo` translated from the Go source IS the model `TTH.writeKVInfo`: for every pair of visited sequences
     `strKV` / `intKV` (the iteration orders) and every pair of Go maps that agree with them in `len` and `[GDPRToken]`, on
@@ -1014,6 +1031,8 @@ def toEncParam (p : EncParam) (mI : GoMap Int Bytes) (mS : GoMap Bytes Bytes) : 
 theorem toEncParam_Flags (p : EncParam) (mI mS) : (toEncParam p mI mS).Flags = (p.flags : Int) := rfl
 theorem toEncParam_SeqID (p : EncParam) (mI mS) : (toEncParam p mI mS).SeqID = p.seq := rfl
 theorem toEncParam_ProtocolID (p : EncParam) (mI mS) : (toEncParam p mI mS).ProtocolID = (p.proto : Int) := rfl
+theorem toEncParam_IntInfo (p : EncParam) (mI mS) : (toEncParam p mI mS).IntInfo = mI := rfl
+theorem toEncParam_StrInfo (p : EncParam) (mI mS) : (toEncParam p mI mS).StrInfo = mS := rfl
 
 /-- the 14 bytes of the header-meta region when `Encode` returns: fresh memory with the magic/flags word, the sequence
     id and — last — the size field stored (`[0:4]`, the total length, belongs to the caller) -/
@@ -1043,11 +1062,15 @@ theorem be16_mod (n : Nat) : be16 (n % 65536) = be16 n := by
   congr 1
   · apply ofNat_congr; omega
 
-theorem bput32_ok (b : Bytes) (off : Int) (x : Int) : bputU32 b off 4 x = .ok (putAt b off.toNat (be32 (ofInt 32 x))) := by
-  simp [bputU32, be32_toU]
+theorem bput32_ok (b : Bytes) (off n : Int) (x : Int) (hn : 4 ≤ n) :
+    bputU32 b off n x = .ok (putAt b off.toNat (be32 (ofInt 32 x))) := by
+  have : ¬ n < 4 := by omega
+  simp [bputU32, be32_toU, this]
 
-theorem bput16_ok (b : Bytes) (off : Int) (x : Int) : bputU16 b off 2 x = .ok (putAt b off.toNat (be16 (ofInt 16 x))) := by
-  simp [bputU16, be16_toU]
+theorem bput16_ok (b : Bytes) (off n : Int) (x : Int) (hn : 2 ≤ n) :
+    bputU16 b off n x = .ok (putAt b off.toNat (be16 (ofInt 16 x))) := by
+  have : ¬ n < 2 := by omega
+  simp [bputU16, be16_toU, this]
 
 theorem putAt_len (b : Bytes) (o : Nat) (bs : Bytes) (h : o + bs.length ≤ b.length) :
     (putAt b o bs).length = b.length := by
@@ -1090,104 +1113,106 @@ theorem encode_cf (p : EncParam) (w : W) (hb : w.broken = false) :
     rw [hp3]
     rfl
 
-/-! ### the generated `Encode` as blocks -/
+/-! ### walking the generated `Encode` -/
 
-/-- `headerInfoSize, err = writeKVInfo(…)`, the size check, the size field, return -/
-def gEncKV {ρ : Type} (I : WriterI ρ) (fuel : Nat) (ord1 : List (Bytes × Bytes)) (ord2 : List (Int × Bytes))
-    (v_param : Funcs.S_ttheader_EncodeParam) (v_headerMeta : Bytes) (t2 : Nat) (v_transformIDs : Bytes) (v_out : ρ) :
-    GM (ρ × Bytes × GoErr) := do
-  let v_headerInfoSize := wrap .i64 (2 + (len v_transformIDs))
-  let t9 ← Funcs.tth_writeKVInfo I fuel ord1 ord2 v_headerInfoSize v_param.IntInfo v_param.StrInfo v_out
-  let v_out := t9.1
-  let v_headerInfoSize := t9.2.1
-  let v_err := t9.2.2
-  if decide (v_err ≠ GoErr.nil) then do
-    let v_out := I.commit v_out t2 v_headerMeta
-    pure (v_out, ([] : Bytes), (GoErr.named "fmt.Errorf:ttHeader write kv info failed, %s"))
-  else do
-    if decide (v_headerInfoSize > 65536) then do
-      let v_out := I.commit v_out t2 v_headerMeta
-      pure (v_out, ([] : Bytes), (GoErr.named "fmt.Errorf:invalid header length[%d]"))
-    else do
-      let v_headerMeta ← bputU16 v_headerMeta 12 2 (wrap .u16 (wrap .i64 (Int.tdiv v_headerInfoSize 4)))
-      let v_out := I.commit v_out t2 v_headerMeta
-      pure (v_out, (bsub v_headerMeta 0 4), GoErr.nil)
+theorem twI_commit (ew : GoErr) (w : W) (h : Nat) (bs : Bytes) : (twI ew).commit w h bs = w.setRegion h bs := rfl
 
-/-- protocol id, number of transform ids, the (empty) loop over them, then the rest -/
-def gEncInfo {ρ : Type} (I : WriterI ρ) (fuel : Nat) (ord1 : List (Bytes × Bytes)) (ord2 : List (Int × Bytes))
-    (v_param : Funcs.S_ttheader_EncodeParam) (v_headerMeta : Bytes) (t2 : Nat) (v_out : ρ) : GM (ρ × Bytes × GoErr) := do
-  let v_transformIDs := ([] : Bytes)
-  let t3 ← Funcs.tth_WriteByte I v_param.ProtocolID v_out
-  let v_out := t3.1
-  let v_err := t3.2
-  if decide (v_err ≠ GoErr.nil) then do
-    let v_out := I.commit v_out t2 v_headerMeta
-    pure (v_out, ([] : Bytes), (GoErr.named "fmt.Errorf:ttHeader write protocol id failed, %s"))
-  else do
-    let t4 ← Funcs.tth_WriteByte I (wrap .u8 (len v_transformIDs)) v_out
-    let v_out := t4.1
-    let v_err := t4.2
-    if decide (v_err ≠ GoErr.nil) then do
-      let v_out := I.commit v_out t2 v_headerMeta
-      pure (v_out, ([] : Bytes), (GoErr.named "fmt.Errorf:ttHeader write transformIDs length failed, %s"))
-    else do
-      let t5 := v_transformIDs
-      let t6 := len t5
-      let v_tid := 0
-      let t8 ← Funcs.tth_Encode_loop1 I v_headerMeta t5 t6 t2 fuel v_out v_err v_tid
-      match t8 with
-      | LoopR.ret r => pure r
-      | LoopR.done s => gEncKV I fuel ord1 ord2 v_param v_headerMeta t2 v_transformIDs s.1
+/-- the magic/flags word, whichever way round the sum is written -/
+theorem be32_magic (f : Nat) :
+    be32 (ofInt 32 (268435456 + (f : Int))) = be32 ((Facts.ttMagic + f) % 4294967296) := by
+  have : (268435456 : Int) + (f : Int) = ((Facts.ttMagic + f : Nat) : Int) := by simp [Facts.ttMagic]
+  rw [this, be32_ofInt_nat, be32_mod]
 
-theorem tth_Encode_blocks {ρ : Type} (I : WriterI ρ) (fuel : Nat) (ord1 : List (Bytes × Bytes))
-    (ord2 : List (Int × Bytes)) (v_param : Funcs.S_ttheader_EncodeParam) (w : ρ) :
-    Funcs.tth_Encode I fuel ord1 ord2 v_param w =
-      (I.malloc w 14).bind fun t1 =>
-        if decide (t1.1.2.2 ≠ GoErr.nil) then
-          .ok (I.commit t1.2 t1.1.2.1 t1.1.1, ([] : Bytes),
-            GoErr.named "fmt.Errorf:ttHeader malloc header meta failed, %s")
-        else
-          (bchk (len t1.1.1) 0 4).bind fun _ => (bchk (len t1.1.1) 12 14).bind fun _ =>
-          (bchk (len t1.1.1) 4 8).bind fun _ =>
-          (bputU32 t1.1.1 4 4 (wrap .u32 (268435456 + v_param.Flags))).bind fun hm =>
-          (bchk (len hm) 8 12).bind fun _ =>
-          (bputU32 hm 8 4 (wrap .u32 v_param.SeqID)).bind fun hm =>
-          gEncInfo I fuel ord1 ord2 v_param hm t1.1.2.1 t1.2 := rfl
+theorem be32_magic' (f : Nat) :
+    be32 (ofInt 32 ((f : Int) + 268435456)) = be32 ((Facts.ttMagic + f) % 4294967296) := by
+  rw [Int.add_comm, be32_magic]
+
+/-- the size field: `uint16(size / 4)` -/
+theorem be16_size (N : Nat) (h : N < 2 ^ 62) :
+    be16 (ofInt 16 (wrap .i64 (Int.tdiv (N : Int) 4))) = be16 ((N / 4) % 65536) := by
+  rw [Int.tdiv_eq_ediv_of_nonneg (by omega), wrap_i64_of_range _ (by omega) (by omega), be16_mod]
+  have : (N : Int) / 4 = ((N / 4 : Nat) : Int) := by omega
+  rw [this, be16_ofInt_nat]
+
+/-- `writeKVInfo` called with a size expression that IS the number `sz` -/
+theorem tth_writeKVInfo_call (ew : GoErr) (hew : ew ≠ GoErr.nil) (fuel : Nat) (szi : Int) (sz : Nat)
+    (hszi : szi = (sz : Int)) (mI : GoMap Int Bytes) (mS : GoMap Bytes Bytes) (intKV : IntMap)
+    (strKV : StrMap) (w : W) (H : KVArgs mS mI strKV intKV) (hf1 : strKV.length < fuel) (hf2 : intKV.length < fuel)
+    (hf3 : 4 ≤ fuel) (hsz : sz + strSz strKV + intSz intKV + 32 < 2 ^ 62) (hb : w.broken = false) :
+    Funcs.tth_writeKVInfo (twI ew) fuel strKV (intOrd intKV) szi mI mS w =
+      .ok (w.pushAll (kvRun sz intKV strKV).2, ((kvRun sz intKV strKV).1 : Int), GoErr.nil) := by
+  subst hszi
+  exact tth_writeKVInfo_cf ew hew fuel sz mI mS intKV strKV w H hf1 hf2 hf3 hsz hb
+
+theorem kvRun_bound (sz : Nat) (intKV : IntMap) (strKV : StrMap) :
+    (kvRun sz intKV strKV).1 ≤ sz + strSz strKV + intSz intKV + 16 := by
+  have hle1 := strBytes_le strKV
+  have hle2 := intBytes_le intKV
+  unfold kvRun
+  cases hl : strKV.lookup gdprKey with
+  | none => simp only; split <;> split <;> simp only <;> omega
+  | some tok =>
+    have htok := lookup_strBytes strKV tok hl
+    simp only; split <;> split <;> simp only <;> omega
+
 
 section enc
 variable (ew : GoErr) (hew : ew ≠ GoErr.nil)
 include hew
 
-theorem gEncKV_cf (fuel : Nat) (p : EncParam) (mI : GoMap Int Bytes) (mS : GoMap Bytes Bytes) (w : W)
-    (H : KVArgs mS mI p.strKV p.intKV) (hf1 : p.strKV.length < fuel) (hf2 : p.intKV.length < fuel) (hf3 : 4 ≤ fuel)
-    (hsz : strSz p.strKV + intSz p.intKV + 64 < 2 ^ 62) (hm : Bytes) (hlen : hm.length = 14) (hd : Nat) (hb : w.broken = false) :
-    gEncKV (twI ew) fuel p.strKV (intOrd p.intKV) (toEncParam p mI mS) hm hd [] w =
-      if ((kvRun 2 p.intKV p.strKV).1 : Int) > 65536 then
-        .ok ((w.pushAll (kvRun 2 p.intKV p.strKV).2).setRegion hd hm, [],
-          GoErr.named "fmt.Errorf:invalid header length[%d]")
-      else
-        .ok ((w.pushAll (kvRun 2 p.intKV p.strKV).2).setRegion hd
-            (putAt hm 12 (be16 (((kvRun 2 p.intKV p.strKV).1 / 4) % 65536))),
-          (putAt hm 12 (be16 (((kvRun 2 p.intKV p.strKV).1 / 4) % 65536))).take 4, GoErr.nil) := by
-  unfold gEncKV
-  have h2 : wrap .i64 (2 + len ([] : Bytes)) = ((2 : Nat) : Int) := by decide
-  simp only [toEncParam, h2]
-  rw [tth_writeKVInfo_cf ew hew fuel 2 mI mS p.intKV p.strKV w H hf1 hf2 hf3 (by omega) hb]
-  simp only [Out.bind_ok, Out.bind_eq, Out.pure_eq, ne_eq, not_true_eq_false, decide_false, Bool.false_eq_true,
-    if_false]
-  by_cases c : ((kvRun 2 p.intKV p.strKV).1 : Int) > 65536
-  · simp only [c, decide_true, if_true]; rfl
-  · simp only [c, decide_false, if_false, Bool.false_eq_true, bput16_ok, Out.bind_ok]
-    have e : be16 (ofInt 16 (wrap .u16 (wrap .i64 (Int.tdiv ((kvRun 2 p.intKV p.strKV).1 : Int) 4)))) =
-        be16 (((kvRun 2 p.intKV p.strKV).1 / 4) % 65536) := by
-      rw [ofInt_wrap 16 .u16 _ (by decide), Int.tdiv_eq_ediv_of_nonneg (by omega),
-        wrap_i64_of_range _ (by omega) (by omega), be16_mod]
-      have : ((kvRun 2 p.intKV p.strKV).1 : Int) / 4 = (((kvRun 2 p.intKV p.strKV).1 / 4 : Nat) : Int) := by omega
-      rw [this, be16_ofInt_nat]
-    rw [e]
-    have hl : (putAt hm 12 (be16 (((kvRun 2 p.intKV p.strKV).1 / 4) % 65536))).length = 14 := by
-      rw [putAt_len _ _ _ (by simp [hlen])]; exact hlen
-    simp [bsub, twI, List.take_of_length_le, hl]
+attribute [local irreducible] Funcs.tth_WriteByte Funcs.tth_WriteUint16 Funcs.tth_WriteUint32
+  Funcs.tth_WriteString2BLen Funcs.tth_WriteString Funcs.tth_writeKVInfo Funcs.tth_writeKVInfo_loop1
+  Funcs.tth_writeKVInfo_loop2 Funcs.tth_writeKVInfo_loop3 Funcs.tth_Encode_loop1 bchk bputU16 bputU32
+
+/-- a bound of a slice expression on the header-meta buffer -/
+macro "len_tac" : tactic => `(tactic| first
+  | omega
+  | (simp [len, putAt]; done)
+  | (simp [len, putAt]; omega))
+
+set_option hygiene false in
+/-- one statement of `Encode` at the head that is not a writer call: a bounds check of a slice expression, a store into
+    the header-meta buffer, the (empty) loop over the transform ids, the call of `writeKVInfo` -/
+macro "enc_call" : tactic => `(tactic| (first
+  | (show @Out.bind Empty Unit _ _ _ = _
+     refine bind_eq_of (bchk_ok _ _ _ (by len_tac) (by len_tac) (by len_tac)) ?_)
+  | (show @Out.bind Empty Bytes _ _ _ = _; first
+      | refine bind_eq_of (bput32_ok _ _ _ _ (by omega)) ?_
+      | refine bind_eq_of (bput16_ok _ _ _ _ (by omega)) ?_)
+  | (show @Out.bind Empty (LoopR _ (W × GoErr × Int)) _ _ _ = _
+     refine bind_eq_of (by
+       simp only [Funcs.tth_Encode_loop1, len, List.length_nil, Int.natCast_zero, Int.lt_irrefl, decide_false,
+         Bool.false_eq_true, if_false, Out.pure_eq]
+       rfl) ?_)
+  | (show @Out.bind Empty (W × Int × GoErr) _ _ _ = _
+     refine bind_eq_of (tth_writeKVInfo_call ew hew _ _ 2 (by first | rfl | decide) _ _ _ _ _ H hf1 hf2 hf3 (by omega)
+       (by hb_tac)) ?_)))
+
+set_option hygiene false in
+macro "enc_step1" : tactic => `(tactic| (first
+  | refine Eq.trans (if_pos (by guard_tac)) ?_
+  | refine Eq.trans (if_neg (by guard_tac)) ?_
+  | tth_call
+  | enc_call))
+
+macro "enc_step" : tactic => `(tactic| (enc_step1; tth_norm))
+
+set_option hygiene false in
+/-- `Encode` on a writer that works, one side of the size check: parameters read off, the walk, then the header-meta
+    region — handed out first, committed last — and the constants compared -/
+macro "enc_leaf" : tactic => `(tactic| (
+  unfold Funcs.tth_Encode
+  simp only [Out.bind_eq, Out.pure_eq, toEncParam_Flags, toEncParam_SeqID, toEncParam_ProtocolID, toEncParam_IntInfo,
+    toEncParam_StrInfo]
+  repeat enc_step
+  have hs := fun bs => setRegion_deep w (w.fresh 14) bs
+    ([UInt8.ofNat p.proto] :: [UInt8.ofNat 0] :: (kvRun 2 p.intKV p.strKV).2)
+  simp only [W.pushAll_cons] at hs
+  simp (disch := omega) only [twI_commit, byteOf_nat, show byteOf (wrap .u8 (len ([] : Bytes))) = UInt8.ofNat 0 from by decide,
+    show byteOf (wrap .u8 0) = UInt8.ofNat 0 from by decide,
+    ofInt_wrap 32 .u32 _ (by decide), ofInt_wrap 16 .u16 _ (by decide), be32_magic, be32_magic', be16_size, hs,
+    metaBytes, Int.reduceToNat]
+  first | done | rfl | exact hs _ | (simp [bsub, hs]; done)))
 
 theorem tth_Encode_cf (fuel : Nat) (p : EncParam) (mI : GoMap Int Bytes) (mS : GoMap Bytes Bytes) (w : W)
     (H : KVArgs mS mI p.strKV p.intKV) (hf1 : p.strKV.length < fuel) (hf2 : p.intKV.length < fuel) (hf3 : 4 ≤ fuel)
@@ -1202,47 +1227,12 @@ theorem tth_Encode_cf (fuel : Nat) (p : EncParam) (mI : GoMap Int Bytes) (mS : G
             [UInt8.ofNat 0]).pushAll (kvRun 2 p.intKV p.strKV).2,
           (metaBytes p w (kvRun 2 p.intKV p.strKV).1).take 4, GoErr.nil) := by
   obtain ⟨k, rfl⟩ : ∃ k, fuel = k + 1 := ⟨fuel - 1, by omega⟩
-  rw [tth_Encode_blocks, twI_malloc_ok ew w 14 hb (by omega)]
-  have hl0 : len (w.fresh 14) = 14 := by simp [len]
-  have e1 : be32 (ofInt 32 (268435456 + (p.flags : Int))) = be32 ((Facts.ttMagic + p.flags) % 4294967296) := by
-    have : (268435456 : Int) + (p.flags : Int) = ((Facts.ttMagic + p.flags : Nat) : Int) := by
-      simp [Facts.ttMagic]
-    rw [this, be32_ofInt_nat, be32_mod]
-  have hl1 : len (putAt (w.fresh 14) 4 (be32 ((Facts.ttMagic + p.flags) % 4294967296))) = 14 := by
-    unfold len; rw [putAt_len _ _ _ (by simp)]; simp
-  simp only [Out.bind_ok, ne_eq, not_true_eq_false, decide_false, Bool.false_eq_true, if_false, hl0,
-    bchk_ok 14 0 4 (by omega) (by omega) (by omega), bchk_ok 14 12 14 (by omega) (by omega) (by omega),
-    bchk_ok 14 4 8 (by omega) (by omega) (by omega), bchk_ok 14 8 12 (by omega) (by omega) (by omega), bput32_ok,
-    toEncParam_Flags, toEncParam_SeqID, ofInt_wrap 32 .u32 _ (by decide : 32 ≤ IT.bits .u32), e1, hl1,
-    Int.reduceToNat]
-  -- protocol id, the number of transform ids, the empty loop
-  unfold gEncInfo
-  have hz : wrap .u8 (len ([] : Bytes)) = 0 := by decide
-  have hb1 : (w.push (w.fresh 14)).broken = false := by simp [hb]
-  simp only [hz, toEncParam_ProtocolID, tth_WriteByte_cf ew hew, hb, W.push_broken, Bool.false_eq_true, if_false, Out.bind_ok, Out.bind_eq,
-    Out.pure_eq, ne_eq, not_true_eq_false, decide_false, Funcs.tth_Encode_loop1, len, List.length_nil,
-    Int.natCast_zero, Int.lt_irrefl, byteOf_nat, byteOf_zero]
-  have hm2l : (putAt (putAt (w.fresh 14) 4 (be32 ((Facts.ttMagic + p.flags) % 4294967296))) 8
-      (be32 (ofInt 32 p.seq))).length = 14 := by
-    rw [putAt_len _ _ _ (by rw [putAt_len _ _ _ (by simp)]; simp), putAt_len _ _ _ (by simp)]; simp
-  rw [gEncKV_cf ew hew (k + 1) p mI mS _ H hf1 hf2 hf3 hsz _ hm2l w.n (by simp [hb])]
-  have hs := fun bs => setRegion_deep w (w.fresh 14) bs
-    ([UInt8.ofNat p.proto] :: [UInt8.ofNat 0] :: (kvRun 2 p.intKV p.strKV).2)
-  simp only [W.pushAll_cons] at hs
-  simp only [show byteOf (wrap .u8 0) = UInt8.ofNat 0 from by decide, hs]
-  rfl
-
-omit hew in
-theorem kvRun_bound (sz : Nat) (intKV : IntMap) (strKV : StrMap) :
-    (kvRun sz intKV strKV).1 ≤ sz + strSz strKV + intSz intKV + 16 := by
-  have hle1 := strBytes_le strKV
-  have hle2 := intBytes_le intKV
-  unfold kvRun
-  cases hl : strKV.lookup gdprKey with
-  | none => simp only; split <;> split <;> simp only <;> omega
-  | some tok =>
-    have htok := lookup_strBytes strKV tok hl
-    simp only; split <;> split <;> simp only <;> omega
+  have hbd := kvRun_bound 2 p.intKV p.strKV
+  by_cases c : ((kvRun 2 p.intKV p.strKV).1 : Int) > 65536
+  · rw [if_pos c]
+    enc_leaf
+  · rw [if_neg c]
+    enc_leaf
 
 omit hew in
 theorem encode_broken (p : EncParam) (w : W) (hb : w.broken = true) : encode p w = .err .writer := by
@@ -1258,8 +1248,16 @@ theorem tth_Encode_eq (fuel : Nat) (p : EncParam) (mI : GoMap Int Bytes) (mS : G
     liftEnc w (Funcs.tth_Encode (twI ew) fuel p.strKV (intOrd p.intKV) (toEncParam p mI mS) w) = encode p w := by
   cases hb : w.broken with
   | true =>
-    rw [encode_broken p w hb, tth_Encode_blocks, twI_malloc_broken ew w 14 hb]
-    simp [liftEnc, hew]
+    obtain ⟨r, hr, h1, h2⟩ : ∃ r, Funcs.tth_Encode (twI ew) fuel p.strKV (intOrd p.intKV) (toEncParam p mI mS) w = .ok r ∧
+        r.2.2 ≠ GoErr.nil ∧ r.2.2 ≠ GoErr.named "fmt.Errorf:invalid header length[%d]" := by
+      unfold Funcs.tth_Encode
+      simp only [Out.bind_eq, Out.pure_eq]
+      refine ⟨?r, ?h1, ?h2, ?h3⟩
+      case h1 => exact bind_eq_of (twI_malloc_broken ew w _ hb) (by brk_norm; rfl)
+      case h2 => simp
+      case h3 => simp
+    rw [encode_broken p w hb, hr]
+    simp [liftEnc, h1, h2]
   | false =>
     have hbd := kvRun_bound 2 p.intKV p.strKV
     rw [tth_Encode_cf ew hew fuel p mI mS w H hf1 hf2 hf3 hsz hb, encode_cf p w hb]
